@@ -65,6 +65,8 @@ pub enum Op {
     ExtendStrs { k: u8, ts: Vec<String> },
     CloneS { swap: bool },
     CloneFrom(String),
+    /// `&s[range]` through each `Index` impl: 0 `..`, 1 `a..`, 2 `..b`, 3 `a..b`, 4 `a..=b`, 5 `..=b`
+    Index { kind: u8, a: usize, b: usize },
     Write { t: String, n: i64 },
     Format { t: String, n: i64 },
     IntoBumpStr,
@@ -182,6 +184,7 @@ impl Op {
             Op::ExtendStrs { .. } => "s_extend_strs",
             Op::CloneS { .. } => "s_clone",
             Op::CloneFrom(_) => "s_clone_from",
+            Op::Index { .. } => "s_index",
             Op::Write { .. } => "s_write",
             Op::Format { .. } => "s_format",
             Op::IntoBumpStr => "s_into_bump_str",
@@ -219,6 +222,7 @@ impl Op {
             Op::ExtendStrs { k, ts } => format!("{} k={} ts={}", n, k, texts(ts)),
             Op::CloneS { swap } => format!("{} swap={}", n, *swap as u8),
             Op::CloneFrom(t) => format!("{} t={}", n, hexs(t.as_bytes())),
+            Op::Index { kind, a, b } => format!("{} k={} a={} b={}", n, kind, a, b),
             Op::Write { t, n: v } => format!("{} t={} v={}", n, hexs(t.as_bytes()), v),
             Op::Format { t, n: v } => format!("{} t={} v={}", n, hexs(t.as_bytes()), v),
             Op::Reserve(c) => format!("{} n={}", n, c),
@@ -267,6 +271,7 @@ impl Op {
             "s_extend_strs" => Op::ExtendStrs { k: us("k")? as u8, ts: untexts(kv(&toks, "ts")?)? },
             "s_clone" => Op::CloneS { swap: fl("swap")? },
             "s_clone_from" => Op::CloneFrom(tx("t")?),
+            "s_index" => Op::Index { kind: us("k")? as u8, a: us("a")?, b: us("b")? },
             "s_write" => Op::Write { t: tx("t")?, n: kv(&toks, "v")?.parse().ok()? },
             "s_format" => Op::Format { t: tx("t")?, n: kv(&toks, "v")?.parse().ok()? },
             "s_into_bump_str" => Op::IntoBumpStr,
